@@ -109,6 +109,27 @@ def run(ctx):
             # diagonal pick: range(0, T**2, T+1) on the last axis and sum over axis 2
             _diag_pick(ctx, pt, N, traced)
 
+    # every path to the 4-axis reshape brings the kept subsystems to the front
+    if four:
+        arr = four[0]["arr"]
+        if isinstance(arr, ast.Name):
+            defs = [n for n in ast.walk(pt.node) if isinstance(n, ast.Assign) and len(n.targets) == 1 and isinstance(n.targets[0], ast.Name) and n.targets[0].id == arr.id]
+            from .. import flow as flw
+            bad = None
+            for d in defs:
+                is_perm = isinstance(d.value, ast.Call) and m.resolve_call(pt, d.value).key.endswith("permute_systems.permute_systems")
+                if is_perm:
+                    continue
+                hit = flw.find_stmt_of(pt.node, d)
+                conds = [(Nn(t), pol) for t, pol in flw.conds(hit[1])] if hit else []
+                # a bypass is sound only under a condition that says perm is the identity
+                ident = any(pol and t[0] == "cmp" and t[1] == "==" and mentions_name(t, "perm") and ("builtins.range" in repr(t) or "builtins.sorted" in repr(t) or "numpy.arange" in repr(t)) for t, pol in conds)
+                if not ident:
+                    bad = d
+            ctx.ob("R-LAYOUT", pt, "the reshaped operand is permute_systems(input, kept ++ traced) on every path", bad is None,
+                   f"{len(defs)} definition(s) of `{arr.id}`, all through permute_systems" if bad is None else
+                   f"`{unparse(bad)[:70]}` feeds the reshape without permuting, under a condition that does not say the permutation is the identity: "
+                   "an unsorted or non-trailing `sys` is traced at the wrong positions", bad)
     # cvxpy branch
     rec = calls_from(m, pt, "partial_trace.partial_trace")
     if rec:
@@ -275,4 +296,25 @@ def _helpers(ctx):
                        "the variable is unpacked row by row without transposition" if comp_ok else
                        "the entrywise unpacking transposes or mis-sizes the variable", n)
     if comp_ok is None:
-        ctx.ob("R-SHAPE", ex, "entry (i,j) -> rows[i][j]", None, "unpacking comprehension not recognised", required=False)
+        # loop form: every store out[a, b] = src[c, d] must keep the index order (a mirrored store needs a conjugate)
+        stores = []
+        for n in ast.walk(ex.node):
+            if isinstance(n, ast.Assign) and isinstance(n.targets[0], ast.Subscript) and isinstance(n.targets[0].slice, ast.Tuple) and len(n.targets[0].slice.elts) == 2:
+                v = n.value
+                conj = False
+                while isinstance(v, ast.Call) and isinstance(v.func, (ast.Attribute, ast.Name)) and (getattr(v.func, "attr", "") in ("conj", "conjugate") or getattr(v.func, "id", "") == "conj" or
+                                                                                               unparse(v.func) in ("np.conj", "np.conjugate", "cvxpy.conj")):
+                    conj = True
+                    v = v.func.value if isinstance(v.func, ast.Attribute) and not v.args else v.args[0]
+                if isinstance(v, ast.Subscript) and isinstance(v.slice, ast.Tuple) and len(v.slice.elts) == 2:
+                    t_idx = [unparse(e) for e in n.targets[0].slice.elts]
+                    s_idx = [unparse(e) for e in v.slice.elts]
+                    stores.append((n, t_idx, s_idx, conj))
+        if stores:
+            bad = [st for st in stores if (st[1] != st[2] and not (st[1] == st[2][::-1] and st[3])) or (st[1] == st[2] and st[3])]
+            ctx.ob("R-SHAPE", ex, "entry (i,j) -> rows[i][j]", not bad,
+                   f"{len(stores)} entry store(s) keep the (row, column) order" if not bad else
+                   f"`{unparse(bad[0][0])}` copies entry ({', '.join(bad[0][2])}) to position ({', '.join(bad[0][1])}) without conjugation: a Hermitian variable is "
+                   "unpacked with the wrong imaginary parts below the diagonal", bad[0][0])
+        else:
+            ctx.ob("R-SHAPE", ex, "entry (i,j) -> rows[i][j]", None, "unpacking not recognised", required=False)
